@@ -345,8 +345,9 @@ def main(prop, argv=None):
         print(f"violation class ({n}x): signature={json.dumps(sig, sort_keys=True)}")
         print("  " + json.dumps(v, sort_keys=True)[:1500])
         print(f"VIOLATION property={prop.ID} replay={path}")
-        if exit_code == EXIT_OK:
-            exit_code = EXIT_VIOLATION
+        # a violation confirmed by its replay in a fresh process is the verdict, even when other
+        # observations of the same run could not be reproduced (those stay on record above)
+        exit_code = EXIT_VIOLATION
 
     # ---- determinism self-test -----------------------------------------------
     det = None
